@@ -294,6 +294,8 @@ func TestC06(t *testing.T) {
 			"The generator then picks an existing thing or target as victim, detaches restrict-wired referrers, deletes the victim (through the child store half of the time when it has child data) and re-creates the same id with fresh values. " +
 			"After the delete commits the whole file is walked (harness walker and boltz.ValidateDeleted, no ignore paths): the id may not occur as bucket name, key, typed key, value or typed value; after re-creation every model invariant (entities, indexes, links, back-references, child data) must hold for the fresh entity. " +
 			"Non-trivial: the victim had >= 2 kinds of attachment (class victim-had:*) when deleted. Distinct by hash of the case JSON.",
+		Assumptions: []string{"ids are disjoint from all field values (otherwise an occurrence of the id bytes would be ambiguous)",
+			"set indexes are over string sets; an entity has child data in at most one child store of its parent"},
 		Gen: genC06, Run: runC06,
 		QuickChecks: 400, ThoroughFactor: 20,
 	})
